@@ -581,6 +581,12 @@ func main() {
 				wr = append(wr, written{Path: sib, Size: int64(len(c2)), Kind: "extra"})
 			}
 		}
+		if spec.PhysicalPathsPct > 0 && r.Pct(spec.PhysicalPathsPct) {
+			// the stage names its own file by the physical path
+			if phys, err := filepath.EvalSymlinks(p); err == nil {
+				return phys
+			}
+		}
 		return p
 	}
 	gen := func(ps []pgen.ParamJSON, r *pgen.HashRng, prefix string, into map[string]interface{}) {
